@@ -493,7 +493,8 @@ def run(check, repo: Repo) -> None:
         prov = cell_provenance(gi, st.value)
         check.decide(prov == "data", "C11-R8", "Vector.__getitem__[slice/fancy]: the value stored per selected position is the source cell reached by walking self._data", "",
                      mod.line(st), fail_detail=f"`{unparse(st)[:70]}` stores a value rooted at {prov}, not at self._data: an accessor whose return shape depends on the selection size "
-                                               f"(get_data returns the bare cell for a single selected cell) hands back a row of the cell instead of the cell")
+                                               f"(get_data returns the bare cell for a single selected cell) hands back a row of the cell instead of the cell",
+                     definite="self.get_data(" in prov)      # provenance fact: the cells come from the accessor whose return type depends on the selection size
 
 
 MANIFEST = {
